@@ -21,7 +21,7 @@ tvars == <<regs, iters, last, l, badr, badi, obs>>
 
 Ev == Rec[l]
 Bump(i) == TLCSet(i, TLCGet(i) + 1)
-Report(kind, exp) == PrintT(<<"MISMATCH", l, kind, exp>>)
+Report(kind, exp) == PrintT("MISMATCH " \o ToString(l) \o " " \o kind \o " " \o ToJson(<<exp>>))
 Check(ok, kind, exp) == IF ok THEN Bump(1) ELSE Report(kind, exp)
 Consume == l' = l + 1 /\ TLCSet(10, l + 1)
 IsEv(name) == l <= Len(Rec) /\ Ev.ev = name
@@ -159,7 +159,7 @@ TNext == TrCompile \/ TrIsMatch \/ TrReplace \/ TrOpen("tok") \/ TrOpen("ana") \
 TSpec == TInit /\ [][TNext]_tvars
 
 Accepted ==
-  /\ PrintT(<<"TRACE-STATS", [lines |-> Len(Rec), consumed |-> TLCGet(10) - 1, compared |-> TLCGet(1),
-                             unspec |-> TLCGet(2), weak |-> TLCGet(3), unfollowed |-> TLCGet(4)]>>)
+  /\ PrintT("TRACE-STATS " \o ToJson([lines |-> Len(Rec), consumed |-> TLCGet(10) - 1, compared |-> TLCGet(1),
+                                      unspec |-> TLCGet(2), weak |-> TLCGet(3), unfollowed |-> TLCGet(4)]))
   /\ TLCGet(10) = Len(Rec) + 1
 =============================================================================
